@@ -66,6 +66,17 @@ PROPS = {
                        "(R47, R35 exhaustive over the keyword recognisers). Not decided: value equality of prefix runs.",
         "assumptions": ["Rc<Value> values are immutable once built (no interior mutability in Value: checked by R28's field inventory of Stack only)"],
     },
+    "C09": {
+        "module": "c09",
+        "explanation": "R25 (exhaustive over the AST type graph): every child of every Statement/Expression/Value variant that can "
+                       "hold an Expression is handed to a walk_* call of the generic Walker that drives the import-path rewriter "
+                       "(children computed from the ADT facts, not listed). R26/R26c: ordering protocol of the runtime import hook "
+                       "and of the checker's resolve_import on the CFG (normalise, cache, cycle test, in-progress mark before run, "
+                       "cache after run). R27: std::env::current_dir unreachable from the import/include/translate/check paths "
+                       "(call graph). R68: rewriter arms and provenance of its base directory. Not decided: filesystem behaviour, "
+                       "equality of values across builds; format template expressions are parsed after the rewrite (noted).",
+        "assumptions": ["the parser never stores an import inside CallDef.funcref / CopyDef.selector (Value from a selector)"],
+    },
 }
 
 
